@@ -414,6 +414,8 @@ func computeSentinels(p *Prog) {
 	}
 }
 
+var freshDepth int
+
 // freshNonNil: the value is non-nil by construction.
 func freshNonNil(v ssa.Value) bool {
 	switch x := v.(type) {
@@ -424,6 +426,21 @@ func freshNonNil(v ssa.Value) bool {
 			switch sc.Pkg.Pkg.Path() + "." + sc.Name() {
 			case "errors.New", "fmt.Errorf":
 				return true
+			}
+			// a function with a body all of whose returns are fresh non-nil values (sessionError(msg) = errors.New(msg))
+			if len(sc.Blocks) > 0 && sc.Signature.Results().Len() == 1 && freshDepth < 3 {
+				freshDepth++
+				defer func() { freshDepth-- }()
+				n := 0
+				for _, b := range sc.Blocks {
+					if r, ok := b.Instrs[len(b.Instrs)-1].(*ssa.Return); ok {
+						if len(r.Results) != 1 || !freshNonNil(r.Results[0]) {
+							return false
+						}
+						n++
+					}
+				}
+				return n > 0
 			}
 		}
 	case *ssa.UnOp:
